@@ -6,6 +6,7 @@ import threading
 
 from . import c14 as C14
 from . import c18gc as GCX
+from . import c18intro as INTRO
 from . import c18lib as L
 from . import c18paths
 from . import c18raw as RAW
@@ -59,7 +60,7 @@ TRUSTED = [
     "translator ctables.py (regex reader of ctraits.c, fails closed): tables, assignment sites, guards, constants, "
     "stealing calls with the releases that can follow them (else arms of the same `if` excluded, loops and gotos "
     "ignored), releases applied directly to struct fields, the copies of trait_clone",
-    "translator crefpaths.py (tokenizer + recursive-descent reader of the C statement subset of 36 functions of the "
+    "translator crefpaths.py (tokenizer + recursive-descent reader of the C statement subset of every function definition of ctraits.c it can parse - 134 of 153, the rest listed by name in the generated `unread` table pinned by C18_paths_unread - of the "
     "attribute get/set core, abstract interpretation of every control-flow path, fails closed): its API tables - which "
     "calls return a NEW reference (PyObject_Call, PyTuple_Pack, PyDict_New, default_value_for, ->validate(), "
     "->getattr(), ...), which a BORROWED one (PyDict_GetItem, PyTuple_GET_ITEM, ...), which STEAL (PyErr_Restore, "
@@ -217,6 +218,8 @@ def generate(rng, tier):
     for c in GCX.gen_rej(rng, tier):
         yield c
     for c in GCX.gen_dpx(rng, tier):
+        yield c
+    for c in INTRO.gen_intro():
         yield c
     for _ in range(nT):
         yield C14.random_T(rng)
@@ -395,6 +398,8 @@ def run_impl(case):
         return run_gc(case)
     if case.startswith(("#GREF ", "#GLIVE ", "#REJ ", "#DPX ")):
         return run_gcx(case)
+    if case.startswith("#INTRO "):
+        return INTRO.run_intro(case)
     if case.startswith("W|"):
         return run_w(case)
     if case.startswith("A|"):
